@@ -210,3 +210,127 @@ Section CensusGen.
     change (zrange 0 0) with (@nil Z). cbn [map zsum]. rewrite Z.add_0_r. reflexivity.
   Qed.
 End CensusGen.
+
+(* ------------------------------------------------------------------ compute_mean_raster / compute_std_raster *)
+
+(* the cumulative sum of a sequence that starts with a zero: cs[k] = the sum of the first k elements *)
+Lemma lead_zero_cumsum : forall (f : Z -> Z) k, 0 <= k ->
+  zsum (map (fun j => if j <? 1 then 0 else f (j - 1)) (zrange 0 (k + 1))) = cumsum f k.
+Proof.
+  intros f k Hk. unfold cumsum, zrange. rewrite Z2Nat.inj_add by lia. change (Z.to_nat 1) with 1%nat.
+  rewrite Nat.add_comm. cbn [Nat.add range map zsum]. change (0 <? 1) with true. cbv iota.
+  rewrite (range_shift _ _ (0 + 1)). rewrite Z.add_0_l.
+  apply zsum_map_ext. intros x Hx. rewrite range_In in Hx.
+  destruct (x + (0 + 1) <? 1) eqn:E; [lia|]. f_equal. lia.
+Qed.
+
+(* what an array is known to be: valid, its shape, its values at the non-negative indices *)
+Definition is_arr {A : Type} (a : arr A) (nr nc : Z) (f : Z -> Z -> A) : Prop :=
+  a_ok a = true /\ a_nr a = nr /\ a_nc a = nc /\ forall r c, 0 <= r -> 0 <= c -> a_at a r c = f r c.
+
+Lemma is_np_of : forall {A : Type} ny nx (I : Z -> Z -> A), 0 <= ny -> 0 <= nx -> is_arr (np_of ny nx I) ny nx I.
+Proof. intros. unfold is_arr, np_of. cbn [a_ok a_nr a_nc a_at]. split; [lia|]. repeat split. Qed.
+
+Lemma is_lead_zero_row : forall a nr nc f, is_arr a nr nc f -> 0 <= nc ->
+  is_arr (np_r_ (np_zeros 1 nc) a) (1 + nr) nc (fun r c => if r <? 1 then 0 else f (r - 1) c).
+Proof.
+  intros a nr nc f (Hok & Hr & Hc & Hat) Hnc. unfold is_arr, np_r_, np_zeros. cbn [a_ok a_nr a_nc a_at].
+  rewrite Hok, Hr, Hc. split; [lia|]. split; [reflexivity|]. split; [reflexivity|].
+  intros r c H1 H2. destruct (r <? 1) eqn:E; [reflexivity|]. apply Hat; lia.
+Qed.
+
+Lemma is_lead_zero_col : forall a nr nc f n, is_arr a nr nc f -> n = nr -> 0 <= nr ->
+  is_arr (np_c_ (np_zeros n 1) a) nr (1 + nc) (fun r c => if c <? 1 then 0 else f r (c - 1)).
+Proof.
+  intros a nr nc f n (Hok & Hr & Hc & Hat) Hn Hnr. subst n. unfold is_arr, np_c_, np_zeros. cbn [a_ok a_nr a_nc a_at].
+  rewrite Hok, Hr, Hc. split; [lia|]. split; [reflexivity|]. split; [reflexivity|].
+  intros r c H1 H2. destruct (c <? 1) eqn:E; [reflexivity|]. apply Hat; lia.
+Qed.
+
+Lemma is_cumsum0 : forall a nr nc f, is_arr a nr nc f ->
+  is_arr (np_cumsum 0 a) nr nc (fun r c => zsum (map (fun j => f j c) (zrange 0 (r + 1)))).
+Proof.
+  intros a nr nc f (Hok & Hr & Hc & Hat). unfold is_arr, np_cumsum. cbn [a_ok a_nr a_nc a_at].
+  change (0 =? 0) with true. cbv iota. rewrite Hok. repeat split; try assumption.
+  intros r c H1 H2. apply zsum_map_ext. intros j Hj. rewrite zrange_In in Hj. apply Hat; lia.
+Qed.
+
+Lemma is_cumsum1 : forall a nr nc f, is_arr a nr nc f ->
+  is_arr (np_cumsum 1 a) nr nc (fun r c => zsum (map (fun j => f r j) (zrange 0 (c + 1)))).
+Proof.
+  intros a nr nc f (Hok & Hr & Hc & Hat). unfold is_arr, np_cumsum. cbn [a_ok a_nr a_nc a_at].
+  change (1 =? 0) with false. change (1 =? 1) with true. cbv iota. rewrite Hok. repeat split; try assumption.
+  intros r c H1 H2. apply zsum_map_ext. intros j Hj. rewrite zrange_In in Hj. apply Hat; lia.
+Qed.
+
+(* x[k:, :] - x[:-k, :]   and   x[:, k:] - x[:, :-k] *)
+Lemma is_windiff_rows : forall a nr nc f k, is_arr a nr nc f -> 0 < k <= nr -> 0 <= nc ->
+  is_arr (np_sub (np_slice a (Some k) None None None) (np_slice a None (Some (- k)) None None)) (nr - k) nc
+         (fun r c => f (k + r) c - f r c).
+Proof.
+  intros a nr nc f k (Hok & Hr & Hc & Hat) Hk Hnc. unfold is_arr, np_sub, np_zip, np_slice, same_shape.
+  cbn [a_ok a_nr a_nc a_at]. rewrite Hok, Hr, Hc.
+  rewrite sl_len_from, sl_len_to_neg, sl_len_all, sl_start_some, !sl_start_none by lia.
+  split; [lia|]. split; [reflexivity|]. split; [reflexivity|].
+  intros r c H1 H2. rewrite !Z.add_0_l. rewrite !Hat by lia. reflexivity.
+Qed.
+
+Lemma is_windiff_cols : forall a nr nc f k, is_arr a nr nc f -> 0 < k <= nc -> 0 <= nr ->
+  is_arr (np_sub (np_slice a None None (Some k) None) (np_slice a None None None (Some (- k)))) nr (nc - k)
+         (fun r c => f r (k + c) - f r c).
+Proof.
+  intros a nr nc f k (Hok & Hr & Hc & Hat) Hk Hnr. unfold is_arr, np_sub, np_zip, np_slice, same_shape.
+  cbn [a_ok a_nr a_nc a_at]. rewrite Hok, Hr, Hc.
+  rewrite sl_len_from, sl_len_to_neg, sl_len_all, sl_start_some, !sl_start_none by lia.
+  split; [lia|]. split; [reflexivity|]. split; [reflexivity|].
+  intros r c H1 H2. rewrite !Z.add_0_l. rewrite !Hat by lia. reflexivity.
+Qed.
+
+Lemma is_div_scalar : forall a nr nc f d, is_arr a nr nc f -> d <> 0 ->
+  is_arr (np_div_scalar a d) nr nc (fun r c => (inject_Z (f r c) / inject_Z d)%Q).
+Proof.
+  intros a nr nc f d (Hok & Hr & Hc & Hat) Hd. unfold is_arr, np_div_scalar. cbn [a_ok a_nr a_nc a_at].
+  rewrite Hok. split; [lia|]. split; [exact Hr|]. split; [exact Hc|].
+  intros r c H1 H2. rewrite Hat by lia. reflexivity.
+Qed.
+
+Lemma is_sq : forall a nr nc f, is_arr a nr nc f -> is_arr (np_sq a) nr nc (fun r c => f r c * f r c).
+Proof.
+  intros a nr nc f (Hok & Hr & Hc & Hat). unfold is_arr, np_sq, np_map. cbn [a_ok a_nr a_nc a_at].
+  repeat split; try assumption. intros r c H1 H2. rewrite Hat by lia. reflexivity.
+Qed.
+
+Lemma cumsum_ext : forall f g k, (forall j, f j = g j) -> cumsum f k = cumsum g k.
+Proof. intros f g k H. unfold cumsum. apply zsum_map_ext. intros; apply H. Qed.
+
+Section RasterGen.
+  Variables (w ny nx : Z).
+  Hypotheses (Hw : 0 < w) (Hny : w <= ny) (Hnx : w <= nx).
+
+  (* compute_mean_raster on any valid ny x nx array of values I: valid, (ny - (w-1)) x (nx - (w-1)), and at (r, c) the
+     model's cumulative-sum raster divided by w * w *)
+  Lemma gen_mean_raster_is : forall a I, is_arr a ny nx I ->
+    is_arr (GF.compute_mean_raster a w) (ny - (w - 1)) (nx - (w - 1))
+           (fun r c => (inject_Z (sum_raster w ny nx I r c) / inject_Z (w * w))%Q).
+  Proof.
+    intros a I Ha. unfold GF.compute_mean_raster. cbv zeta.
+    destruct Ha as (Hok & Hr & Hc & Hat). rewrite Hr, Hc.
+    assert (Ha : is_arr a ny nx I) by (repeat split; assumption).
+    pose proof (is_lead_zero_row _ _ _ _ Ha ltac:(lia)) as H1.
+    pose proof (is_cumsum0 _ _ _ _ H1) as H2.
+    pose proof (is_windiff_rows _ _ _ _ w H2 ltac:(lia) ltac:(lia)) as H3.
+    pose proof (is_lead_zero_col _ _ _ _ (ny - (w - 1)) H3 ltac:(lia) ltac:(lia)) as H4.
+    pose proof (is_cumsum1 _ _ _ _ H4) as H5.
+    pose proof (is_windiff_cols _ _ _ _ w H5 ltac:(lia) ltac:(lia)) as H6.
+    pose proof (is_div_scalar _ _ _ _ (w * w) H6 ltac:(nia)) as H7.
+    destruct H7 as (Gok & Gr & Gc & Gat).
+    split; [exact Gok|]. split; [rewrite Gr; lia|]. split; [rewrite Gc; lia|].
+    intros r c R0 C0. rewrite Gat by lia. cbv beta. f_equal. f_equal.
+    unfold sum_raster. cbv zeta. rewrite !memo2_eq.
+    rewrite !(lead_zero_cumsum (fun j => zsum (map (fun j0 => if j0 <? 1 then 0 else I (j0 - 1) j) (zrange 0 (w + r + 1)))
+                                         - zsum (map (fun j0 => if j0 <? 1 then 0 else I (j0 - 1) j) (zrange 0 (r + 1))))) by lia.
+    rewrite (Z.add_comm w c).
+    f_equal; apply cumsum_ext; intros j; rewrite !memo2_eq;
+      rewrite !(lead_zero_cumsum (fun i => I i j)) by lia; rewrite (Z.add_comm w r); reflexivity.
+  Qed.
+End RasterGen.
